@@ -49,10 +49,15 @@ def canon(v):
     if isinstance(v, bool) or v is None:
         return v
     if isinstance(v, float):
-        return {'f': fr(v)}
+        try:
+            return {'f': fr(v)}
+        except (ValueError, OverflowError):
+            return {'?': 'float:' + repr(v)}
     if isinstance(v, str):
         return {'s': v}
-    return v
+    if isinstance(v, int):
+        return v
+    return {'?': type(v).__name__ + ':' + repr(v)[:60]}
 
 
 # ------------------------------------------------------------------------------------------
@@ -285,4 +290,14 @@ def run_nrt_case(c):
 
 
 def run_nrt(payload):
-    return [run_nrt_case(c) for c in payload['cases']]
+    outs = []
+    for c in payload['cases']:
+        try:
+            outs.append(run_nrt_case(c))
+        except Exception as e:                 # even the harness part around the library failed
+            outs.append({'exc': 'HARNESS:' + type(e).__name__ + ':' + str(e)[:200], 'sends': []})
+            try:
+                _S['main'].reset()
+            except Exception:
+                pass
+    return outs
